@@ -26,6 +26,7 @@ def run(model, rep, tier):
     r7_entry_shapes(ctx, rep)
     r8_per_object_state(ctx, rep)
     c02.accumulators_never_discarded(ctx, rep, 'C12.R9')
+    c02.accumulator_roles_through_calls(ctx, rep, 'C12.R3')
     rep.units['cfg'] = ctx.cfg_stats
 
 
